@@ -84,6 +84,9 @@ class Executor:
           else: yield from s.truth(r,st2)
       elif (v.id,'items') in st.heap:
         yield st, z3.BoolVal(len(st.heap[(v.id,'items')])>0)
+      elif v.cls in('setlist','set') and (v.id,'arr') in st.heap:
+        from .symcoll import EMPTY
+        yield st, st.heap[(v.id,'arr')]!=EMPTY
       elif s.reg.find_method(v.cls,'__len__') is not None:
         raise Unsupported("truthiness via __len__")
       else: yield st, z3.BoolVal(True)
@@ -168,7 +171,74 @@ class Executor:
       else:
         r=st1.alloc('list',{'items':tuple(vals)}); yield st1,r
 
+  def ev_DictComp(s,e,st):
+    # { v: <constant> for v in <set> } : a dict whose domain is the set and whose values are all the constant ([] -> empty abstracted list, int)
+    from . import symcoll
+    g=e.generators[0]
+    if len(e.generators)!=1 or g.ifs or not isinstance(g.target,ast.Name) or not isinstance(e.key,ast.Name) or e.key.id!=g.target.id: raise Unsupported("general dict comprehension")
+    if any(isinstance(x,ast.Name) and x.id==g.target.id for x in ast.walk(e.value)): raise Unsupported("dict comprehension value depends on the key")
+    for st1,it in s.ev(g.iter,st):
+      if isinstance(it,Exc): yield st1,it; continue
+      dom,kt=symcoll.setval(it,st1)
+      for st2,v in s.ev(e.value,st1):
+        if isinstance(v,Exc): yield st2,v; continue
+        r=st2.alloc('dict'); st2.heap[(r.id,'dom')]=dom; st2.heap[(r.id,'key')]=kt or symcoll.ObjK(); st2.heap[(r.id,'default')]=None
+        if isinstance(v,Ref) and v.cls=='list' and st2.heap.get((v.id,'items'))==():
+          st2.heap[(r.id,'val')]=z3.K(symcoll.Obj,symcoll.EMPTY); st2.heap[(r.id,'vt')]=symcoll.SetOf(kt)
+        elif is_intlike(v):
+          st2.heap[(r.id,'val')]=z3.K(symcoll.Obj,as_int(v)); st2.heap[(r.id,'vt')]=IntT()
+        else: raise Unsupported("dict comprehension value")
+        yield st2,r
+
   def ev_ListComp(s,e,st):
+    from . import symcoll
+    g=e.generators[0] if len(e.generators)==1 else None
+    if g is not None and isinstance(g.target,ast.Name) and isinstance(e.elt,ast.Name) and e.elt.id==g.target.id and not g.is_async:
+      # [ v for v in <set> if cond(v) ] : the (duplicate-free, arbitrarily ordered) list of the members satisfying cond
+      done=False
+      for st1,it in s.ev(g.iter,st):
+        if isinstance(it,Exc): yield st1,it; done=True; continue
+        if not _setlike(it,st1) and not (isinstance(it,Ref) and it.cls=='setlist'): break
+        done=True
+        dom,kt=symcoll.setval(it,st1)
+        x=z3.Const(f"{g.target.id}!c{st1.nextid[0]}",symcoll.Obj); st1.nextid[0]+=1
+        st2=st1.fork(z3.Select(dom,x)); st2.env[g.target.id]=symcoll.from_obj(x,kt,st2); conds=[]
+        for c in g.ifs: conds.append(s._pure_cond(c,st2))
+        A=z3.Const(f"comp!{st1.nextid[0]}",symcoll.SetSort); st1.nextid[0]+=1
+        st3=st1.fork(z3.ForAll([x],z3.Select(A,x)==z3.And(z3.Select(dom,x),*conds)))
+        yield st3,symcoll.new_setlist(st3,A,kt)
+      if done: return
+    yield from s._ev_ListComp_concrete(e,st)
+
+  def ev_SetComp(s,e,st):
+    from . import symcoll
+    g=e.generators[0] if len(e.generators)==1 else None
+    if g is None or g.is_async or ast.dump(e.elt)!=ast.dump(_as_load(g.target)): raise Unsupported("general set comprehension")
+    for st1,it in s.ev(g.iter,st):
+      if isinstance(it,Exc): yield st1,it; continue
+      dom,kt=symcoll.setval(it,st1)
+      x=z3.Const(f"sc!{st1.nextid[0]}",symcoll.Obj); st1.nextid[0]+=1
+      st2=st1.fork(symcoll.wf(x,kt) if kt is not None else z3.BoolVal(True)); st2.pc.append(z3.Select(dom,x))
+      rs=list(s.assign(g.target,symcoll.from_obj(x,kt,st2),st2))
+      if len(rs)!=1 or rs[0][1] is not None: raise Unsupported("comprehension target")
+      st2=rs[0][0]; conds=[symcoll.wf(x,kt)] if kt is not None else []
+      for c in g.ifs: conds.append(s._pure_cond(c,st2))
+      A=z3.Const(f"scomp!{st1.nextid[0]}",symcoll.SetSort); st1.nextid[0]+=1
+      st3=st1.fork(z3.ForAll([x],z3.Select(A,x)==z3.And(z3.Select(dom,x),*conds)))
+      yield st3,st3.alloc('set',{'arr':A,'elem':kt or symcoll.ObjK()})
+
+  def _pure_cond(s,c,st):
+    """a comprehension filter as one boolean term: evaluated precisely if that yields a single outcome; a filter made only of
+    membership tests / boolean connectives (no subscripts, no calls) is evaluated without short-circuit path splitting."""
+    rs=list(s.ev(c,st))
+    if len(rs)==1 and not isinstance(rs[0][1],Exc): return list(s.truth(rs[0][1],rs[0][0]))[0][1]
+    if any(isinstance(x,(ast.Subscript,ast.Call)) for x in ast.walk(c)): raise Unsupported("comprehension filter with effects")
+    old=s.spec; s.spec=True
+    try: rs=list(s.ev(c,st))
+    finally: s.spec=old
+    return list(s.truth(rs[0][1],rs[0][0]))[0][1]
+
+  def _ev_ListComp_concrete(s,e,st):
     # [ f(i) for i in <concrete iterable> ] : unrolled; the comprehension variable is local to the comprehension
     if len(e.generators)!=1 or e.generators[0].ifs or e.generators[0].is_async: raise Unsupported("general list comprehension")
     g=e.generators[0]
@@ -374,7 +444,7 @@ class Executor:
         yield st,B(same if op is ast.Eq else z3.Not(same)); return
       if isinstance(a,S) and isinstance(b,S) and a.py is not None and b.py is not None:
         yield st,B((a.py==b.py)==(op is ast.Eq)); return
-      if isinstance(a,Opq) and isinstance(b,Opq) and a.kind==b.kind:
+      if isinstance(a,Opq) and isinstance(b,Opq) and (a.kind==b.kind or 'obj' in (a.kind,b.kind)) and a.t.sort()==b.t.sort():
         yield st,B((a.t==b.t) if op is ast.Eq else (a.t!=b.t)); return
       la=s.seq_items(a,st); lb=s.seq_items(b,st)
       if la is not None and lb is not None and type(a)==type(b):
@@ -421,6 +491,8 @@ class Executor:
         acc.append(list(s.truth(rs[0][1],st))[0][1])
       t=z3.Or(*acc) if acc else z3.BoolVal(False)
       yield st,B(z3.Not(t) if negate else t); return
+    if isinstance(container,Opq) and container.kind=='os.environ':
+      yield st,B(bool(negate)); return          # debugging environment variables are assumed unset (recorded assumption)
     h=s.reg.coll_handler(container,st)
     if h is not None:
       yield from h.contains(s,container,x,st,negate); return
@@ -447,6 +519,10 @@ class Executor:
     return v
 
   def getattr(s,o,attr,st):
+    if type(o).__name__=='Mod':
+      if (o.name,attr)==('random','shuffle'): yield st,Fn('random.shuffle'); return
+      if (o.name,attr)==('os','environ'): yield st,Opq(z3.IntVal(0),'os.environ'); return
+      raise Unsupported(f"module attribute {o.name}.{attr}")
     if isinstance(o,Ref) and attr=='__class__' and not o.cls.startswith(('list','set','dict','range','exc:')):
       yield st,Cls(o.cls); return
     if isinstance(o,Cls) and o.name in s.reg.gen_classes:
@@ -482,6 +558,9 @@ class Executor:
     if isinstance(o,Cls):
       if o.name=='object' and attr=='__new__': yield st,Fn('object.__new__'); return
       yield st,Fn(f'{o.name}.{attr}'); return
+    if type(o).__name__=='DictSlot':
+      from .symcoll import SlotOps
+      if attr in SlotOps.METHODS: yield st,Fn(f'slot.{attr}',o); return
     if isinstance(o,Opq):
       r=s.reg.opaque_attr(o,attr,st)
       if r is not None: yield st,r; return
@@ -687,9 +766,15 @@ class Executor:
   # outcome: (st, ctl) with ctl None | ('return',v) | ('raise',Exc) | ('break',) | ('continue',)
   def block(s,stmts,st):
     if not stmts: yield st,None; return
+    s.cur_line=getattr(stmts[0],'lineno',0)
+    hooks=getattr(getattr(s,'contract',None),'ghost_hooks',None)
+    hook=hooks.get(' '.join(ast.unparse(stmts[0]).split())) if hooks and not isinstance(stmts[0],(ast.For,ast.While,ast.If,ast.Try)) else None
     for st1,ctl in s.stmt(stmts[0],st):
       if ctl is not None: yield st1,ctl
-      else: yield from s.block(stmts[1:],st1)
+      else:
+        if hook is not None:
+          st1=st1.fork(); hook(s,st1)          # ghost update attached to this statement by the sidecar
+        yield from s.block(stmts[1:],st1)
 
   def stmt(s,n,st):
     s.npaths+=1
@@ -699,7 +784,11 @@ class Executor:
     yield from m(n,st)
 
   def st_Pass(s,n,st): yield st,None
-  def st_Import(s,n,st): yield st,None
+  def st_Import(s,n,st):
+    from .symcoll import Mod
+    st=st.fork()
+    for a in n.names: st.env[(a.asname or a.name).split('.')[0]]=Mod(a.name)
+    yield st,None
   def st_ImportFrom(s,n,st): yield st,None
   def st_Global(s,n,st): yield st,None
   def st_Break(s,n,st): yield st,('break',)
@@ -754,6 +843,12 @@ class Executor:
   def st_Assign(s,n,st):
     for st1,v in s.ev(n.value,st):
       if isinstance(v,Exc): yield st1,('raise',v); continue
+      al=getattr(getattr(s,'contract',None),'abstract_lists',())
+      if al and isinstance(v,Ref) and v.cls=='list' and (v.id,'items') in st1.heap and any(isinstance(t,ast.Name) and t.id in al for t in n.targets):
+        from . import symcoll
+        arr=symcoll.EMPTY
+        for x in st1.heap[(v.id,'items')]: arr=z3.Store(arr,symcoll.to_obj(x,st1),True)
+        v=symcoll.new_setlist(st1,arr)
       def go(ts,st):
         if not ts: yield st,None; return
         for st2,ctl in s.assign(ts[0],v,st):
@@ -968,9 +1063,9 @@ class Executor:
     s.inv_vc('inv-init',n,spec,st,None)
     st1=st.fork()
     s.havoc_locals(st1,s.assigned_names(n.body))
-    for loc in spec.modifies:
-      o,f=loc.split('.'); ov=st1.env[o]
-      st1.heap[(ov.id,f)]=I(st1.fresh_int(f"{o}.{f}@loop"))
+    from .symcoll import havoc_loc, havoc_ghost
+    for loc in spec.modifies: havoc_loc(s,loc,st1)
+    havoc_ghost(spec,st1)
     for cl in spec.invariant:
       st1.pc.append(s.spec_bool(cl,st1.env,st1,st1.heap,st1.entry_heap,st1.entry_env))
     for cl in spec.lemmas:
@@ -1300,6 +1395,11 @@ def _bi_listctor(s,args,kw,st):
   if it is None: raise Unsupported("list() of symbolic collection")
   yield st,st.alloc('list',{'items':tuple(it)})
 
+def _bi_setctor(s,args,kw,st):
+  from . import symcoll
+  if not args: yield st,st.alloc('set',{'arr':symcoll.EMPTY,'elem':symcoll.ObjK()}); return
+  arr,et=symcoll.setval(args[0],st); yield st,st.alloc('set',{'arr':arr,'elem':et or symcoll.ObjK()})
+
 def _bi_intcls(s,args,kw,st):
   yield from _bi_int(s,None,args,kw,st)
 def _bi_boolcls(s,args,kw,st):
@@ -1319,10 +1419,20 @@ def _bi_issubclass(s,f,args,kw,st):
   if isinstance(a,Cls) and isinstance(b,Cls): yield st,B(s.reg.is_subclass(a.name,b.name)); return
   yield st,Exc('TypeError','issubclass() arg 1 must be a class')
 
-BUILTIN_FNS={'super':_bi_super,'issubclass':_bi_issubclass,'int':_bi_int,'isinstance':_bi_isinstance,'abs':_bi_abs,'hex':_bi_hex,'str':_bi_str,'repr':_bi_repr,
+def _bi_hasattr(s,f,args,kw,st):
+  o,nm=args
+  if isinstance(o,Ref) and isinstance(nm,S) and nm.py is not None:
+    yield st,B((o.id,nm.py) in st.heap or s.reg.attr_kind(o.cls,nm.py) is not None); return
+  raise Unsupported("hasattr on a value that is not under contract")
+def _bi_shuffle(s,f,args,kw,st):
+  o=args[0]
+  if isinstance(o,Ref) and o.cls=='setlist': yield st,NONE; return      # any permutation: the abstraction by the element set is invariant
+  raise Unsupported("random.shuffle of a list that is not abstracted by its element set")
+
+BUILTIN_FNS={'hasattr':_bi_hasattr,'random.shuffle':_bi_shuffle,'super':_bi_super,'issubclass':_bi_issubclass,'int':_bi_int,'isinstance':_bi_isinstance,'abs':_bi_abs,'hex':_bi_hex,'str':_bi_str,'repr':_bi_repr,
   'len':_bi_len,'range':_bi_range,'hash':_bi_hash,'object.__new__':_bi_object_new,'min':_bi_minmax,'max':_bi_minmax,
   'bool':_bi_bool,'int.bit_length':_bi_bit_length,'bin':_bi_str,'oct':_bi_str}
-BUILTIN_CLS={'slice':_bi_slice,'tuple':_bi_tuple,'list':_bi_listctor,'int':_bi_intcls,'bool':_bi_boolcls,'object':None,'str':None}
+BUILTIN_CLS={'set':_bi_setctor,'slice':_bi_slice,'tuple':_bi_tuple,'list':_bi_listctor,'int':_bi_intcls,'bool':_bi_boolcls,'object':None,'str':None}
 
 # ------------------------------------------------------------------------------------------------ spec functions (contract language)
 def _sf_pow2(s,args,st): return I(st.th.pow2(as_int(args[0])))
